@@ -334,6 +334,13 @@ func init() {
 			run := func(dir string) (map[string]string, error) {
 				cmd := exec.Command(self, "c05order", dir)
 				cmd.Env = os.Environ()
+				// the two processes also differ in their environment: time zone (one with daylight-saving rules), locale,
+				// home directory - a verdict is a function of object, registry and configuration, not of these
+				if dir == "rev" {
+					cmd.Env = append(cmd.Env, "TZ=America/New_York", "LANG=tr_TR.UTF-8", "LC_ALL=tr_TR.UTF-8", "HOME=/nonexistent", "TMPDIR=/nonexistent")
+				} else {
+					cmd.Env = append(cmd.Env, "TZ=UTC", "LANG=C", "LC_ALL=C")
+				}
 				b, err := cmd.Output()
 				if err != nil {
 					return nil, err
@@ -360,8 +367,8 @@ func init() {
 					}
 					diffs++
 					if diffs <= 10 {
-						out.Violate("C05|history-dependent:"+strings.SplitN(k, "|", 2)[1], fmt.Sprintf("%s: %q when the population is linted in one order (fresh process), %q in the reverse order", k, v, rev[k]),
-							map[string]interface{}{"object|lint": k, "how": "harness c05order fwd  vs  harness c05order rev"}, v, rev[k])
+						out.Violate("C05|history-dependent:"+strings.SplitN(k, "|", 2)[1], fmt.Sprintf("%s: %q when the population is linted in one order (fresh process, TZ=UTC), %q in the reverse order (TZ=America/New_York, Turkish locale)", k, v, rev[k]),
+							map[string]interface{}{"object|lint": k, "how": "harness c05order fwd (TZ=UTC LANG=C)  vs  TZ=America/New_York LANG=tr_TR.UTF-8 harness c05order rev"}, v, rev[k])
 					}
 				}
 			}
@@ -500,6 +507,27 @@ func init() {
 				continue
 			}
 			for n, r := range resultsOf(zlint.LintCertificate(c)) {
+				fmt.Fprintf(w, "%s|%s\t%d %s\n", o.File, n, r.Status, strings.ReplaceAll(r.Details, "\n", " "))
+			}
+		}
+		// revocation lists and OCSP responses as well (corpus, zoo, and lists whose lifetime sits exactly on a limit)
+		crls := append(append([]CorpusCRL{}, corpus.CRLs...), crlZoo()...)
+		if len(args) > 0 && args[0] == "rev" {
+			for i, j := 0, len(crls)-1; i < j; i, j = i+1, j-1 {
+				crls[i], crls[j] = crls[j], crls[i]
+			}
+		}
+		for _, o := range crls {
+			c, err := x509.ParseRevocationList(o.DER)
+			if err != nil || len(c.RevokedCertificates) > 1000 {
+				continue
+			}
+			for n, r := range resultsOf(zlint.LintRevocationList(c)) {
+				fmt.Fprintf(w, "%s|%s\t%d %s\n", o.File, n, r.Status, strings.ReplaceAll(r.Details, "\n", " "))
+			}
+		}
+		for _, o := range append(append([]CorpusOCSP{}, corpus.OCSPs...), ocspZoo()...) {
+			for n, r := range resultsOf(zlint.LintOcspResponse(o.Resp)) {
 				fmt.Fprintf(w, "%s|%s\t%d %s\n", o.File, n, r.Status, strings.ReplaceAll(r.Details, "\n", " "))
 			}
 		}
